@@ -108,7 +108,7 @@ Proof.
   apply boundary_shift in He; [|exact Hv].
   apply valid_app in Hv. destruct Hv as [Ha Hr].
   rewrite encode_length_app in Hce.
-  destruct (boundary_split r _ Hr ltac:(lia) He) as (m & b & -> & Hm).
+  destruct (boundary_split r (e - length (encode a)) Hr ltac:(lia) He) as (m & b & -> & Hm).
   exists a, m, b. repeat split; lia.
 Qed.
 
@@ -242,7 +242,7 @@ Proof.
   destruct (eq_ignore_case pre t); [|discriminate]. inversion Ho; subst c'.
   apply slice_opt_some in Hs. destruct Hs as (Hr & _ & Hb).
   destruct (view_valid _ _ _ _ _ Hview) as (_ & Hm & _).
-  destruct (boundary_split m _ Hm ltac:(lia) Hb) as (m1 & m2 & -> & Hl).
+  destruct (boundary_split m (length t) Hm ltac:(lia) Hb) as (m1 & m2 & -> & Hl).
   split; [lia|]. rewrite Hl. eapply view_advance; [apply Hc|exact Hview].
 Qed.
 
@@ -332,7 +332,7 @@ Lemma span_good I x y : good_inp I -> good_cur I x -> good_cur I y -> x <= y ->
 Proof.
   intros HI Hx Hy Hxy.
   destruct (good_span_view I x y HI Hx Hy Hxy) as (a & m & b & Hv & Hp & Hxa & Hya).
-  pose proof (slice_opt_mid a m b Hv) as Hs. rewrite <- Hp, <- Hxa, <- Hya in Hs.
+  pose proof (slice_opt_mid a m b Hv) as Hs. rewrite <- Hp, <- Hya, <- Hxa in Hs.
   split.
   - unfold i_span. rewrite Hs. reflexivity.
   - exists m. split.
